@@ -112,6 +112,14 @@ func bgAnalyseFn(c *Ctx, fn *ssa.Function, name string) *bgInfo {
 						bi.spawnAt[f] = x
 					}
 				}
+				// c := out.startReader(bgCtx, s): an unexported helper that starts (and accounts for) a goroutine of its own
+				if !token.IsExported(cal.Name()) {
+					for _, g := range selfAccountedGoroutines(origin(cal)) {
+						bi.spawned = append(bi.spawned, g)
+						bi.spawnHow[g] = "helper"
+						bi.spawnAt[g] = x
+					}
+				}
 			}
 		}
 	})
@@ -276,6 +284,7 @@ func ruleBgCancellable(c *Ctx, r *R, names ...string) {
 		// channels closed by a deferred close in some goroutine of the group
 		peerClosed := map[*ssa.Alloc]bool{}
 		peerClosedField := map[string]bool{}
+		peerClosedMk := map[*ssa.MakeChan]bool{}
 		for _, g := range bi.all {
 			instrs(g, func(b *ssa.BasicBlock, i int, in ssa.Instruction) {
 				var cc *ssa.CallCommon
@@ -302,6 +311,9 @@ func ruleBgCancellable(c *Ctx, r *R, names ...string) {
 					}
 					if f := fieldOfChan(cc.Args[0]); f != "" {
 						peerClosedField[f] = true
+					}
+					for mk := range madeChans(cc.Args[0]) {
+						peerClosedMk[mk] = true
 					}
 				}
 			})
@@ -336,6 +348,18 @@ func ruleBgCancellable(c *Ctx, r *R, names ...string) {
 					if !a.send {
 						if ld, ok := a.ch.(*ssa.UnOp); ok {
 							if cell := cellOf(ld.X); cell != nil && peerClosed[cell] {
+								okB = true
+							}
+						}
+						// the same channel by creation site (it may have travelled through a helper's result)
+						if mks := madeChans(a.ch); len(mks) > 0 {
+							all := true
+							for mk := range mks {
+								if !peerClosedMk[mk] {
+									all = false
+								}
+							}
+							if all {
 								okB = true
 							}
 						}
@@ -507,6 +531,10 @@ func ruleWgCount(c *Ctx, r *R, names ...string) {
 		})
 		nl := 0
 		for _, g := range bi.spawned {
+			if bi.spawnHow[g] == "helper" {
+				nl++
+				r.discharged(name+"|wg-add:helper#"+itoa(nl), bi.spawnAt[g].Pos(), "started by a helper that calls wg.Add(1) before its go statement; the goroutine defers wg.Done() first")
+			}
 			if bi.spawnHow[g] == "launcher" {
 				nl++
 				r.discharged(name+"|wg-add:launcher#"+itoa(nl), bi.spawnAt[g].Pos(), "started through a helper that calls wg.Add(1) before its go statement and defers wg.Done() first in the goroutine")
@@ -652,4 +680,39 @@ func goLauncher(h *ssa.Function, ai int) bool {
 		}
 	}
 	return true
+}
+
+// selfAccountedGoroutines: the function literals h starts with `go`, provided h calls WaitGroup.Add(1) unconditionally before
+// its (only) go statement and the goroutine's first deferred call is WaitGroup.Done().
+func selfAccountedGoroutines(h *ssa.Function) []*ssa.Function {
+	var goIn *ssa.Go
+	var add *ssa.Call
+	nGo := 0
+	instrs(h, func(b *ssa.BasicBlock, i int, in ssa.Instruction) {
+		switch x := in.(type) {
+		case *ssa.Go:
+			goIn = x
+			nGo++
+		case *ssa.Call:
+			if cal := x.Call.StaticCallee(); cal != nil && cal.Name() == "Add" && cal.Signature.Recv() != nil && isNamedType(cal.Signature.Recv().Type(), "sync", "WaitGroup") && isConstInt(x.Call.Args[len(x.Call.Args)-1], 1) {
+				add = x
+			}
+		}
+	})
+	if nGo != 1 || add == nil || add.Block() != h.Blocks[0] || goIn.Block() != h.Blocks[0] || idxIn(add) > idxIn(goIn) {
+		return nil
+	}
+	g := staticCallee(&goIn.Call)
+	if g == nil || g.Parent() != h || len(g.Blocks) == 0 {
+		return nil
+	}
+	for _, in := range g.Blocks[0].Instrs {
+		if d, ok := in.(*ssa.Defer); ok {
+			if cal := d.Call.StaticCallee(); cal != nil && cal.Name() == "Done" && cal.Signature.Recv() != nil && isNamedType(cal.Signature.Recv().Type(), "sync", "WaitGroup") {
+				return []*ssa.Function{g}
+			}
+			return nil
+		}
+	}
+	return nil
 }
